@@ -11,6 +11,8 @@ import Y0.Lemmas.PrintDenEval
 import Y0.Lemmas.PrintBalanced
 import Y0.Lemmas.PrintClosed
 import Y0.Lemmas.PrintBuilders
+import Y0.Lemmas.PrintBuiltEval
+import Y0.Lemmas.DslKey
 
 namespace Y0
 namespace C12
@@ -110,17 +112,10 @@ theorem parse_print_total (lt : Expr → Expr → Bool) (e : Expr) (hb : built l
   ⟨e', h⟩
 
 /-! ## 4. `built` is closed under the operators: everything obtained from built operands with `*`, `/`, `Sum[…]`
-is built again, so the three clauses above apply to it.  The sort order only has to be asymmetric (`asymm_exprLt`:
-the pinned `_get_key` order is).
-
--- OPEN: built_of_eval — the ONE statement over construction syntax trees,
---   `NamesOnce a → eval lt a = .ok (.expr e) → built lt e`,
---   i.e. the composition of the closure theorems below along `PyEval.eval`'s dispatch (call / subscript / operators),
---   with "each distribution, subscript list, range and Q-(co)domain mentions a name once" stated on the syntax tree.
---   Every ingredient is proved: variables (`canon_closed_sign`, `canon_closed_at`), `P`/`PP` with and without
---   `[…]` (`built_closed_P`, `built_closed_P_ivs`), `Q[…]` (`built_closed_Q`), `Sum[…]`, `*`, `/`.  Until the composition
---   is proved, "Python-built objects are `built`" is also decided by the model on every Python-built object of every
---   run (correspondence stream `domain`). -/
+is built again, so the three clauses above apply to it.  The sort order only has to be asymmetric (`pinned_order_asymm`:
+the pinned `_get_key` order is; `total_order_asymm`: the total structural key `Expr.ltE` of the fixed code is).
+Section 5 composes these closure theorems along the interpreter's dispatch into ONE statement over construction trees
+(`built_of_eval`). -/
 
 theorem built_closed_mul (lt : Expr → Expr → Bool) (hasym : Asymm lt) (a b c : Expr) (ha : built lt a = true)
     (hb : built lt b = true) (hc : PyEval.mul lt a b = .ok c) : built lt c = true :=
@@ -170,6 +165,11 @@ theorem built_closed_Q (lt : Expr → Expr → Bool) (cod : PyEval.Val) (args : 
 /-- the order of the pinned `_get_key` is asymmetric, so the closure theorems apply to it -/
 theorem pinned_order_asymm : Asymm PyEval.exprLt := asymm_exprLt
 
+/-- the order of the FIXED `_get_key` (total structural key, `Expr.ltE` of Y0.Model.Dsl, commit 1603f97) is asymmetric
+(it is a strict total order: `C11.key_total`), so the closure theorems apply to it: this is the order of the code
+under test -/
+theorem total_order_asymm : Asymm Expr.ltE := fun _ _ h => Expr.ltE_asymm h
+
 /-- `a * b` and `a / b` of built, `Zero()`-free operands never raise and mean product and quotient -/
 theorem mul_total_den (lt : Expr → Expr → Bool) (a b : Expr) (ha : nz a = true) (hb : nz b = true) :
     ∃ c, PyEval.mul lt a b = .ok c ∧ ∀ (env : Env) (σ' σ : Y0.Val), den env σ' c σ = den env σ' a σ * den env σ' b σ :=
@@ -180,6 +180,163 @@ theorem div_total_den (lt : Expr → Expr → Bool) (a b : Expr) (ha : nz a = tr
     ∃ c, PyEval.div lt a b = .ok c ∧ ∀ (env : Env) (σ' σ : Y0.Val), den env σ' c σ = den env σ' a σ / den env σ' b σ :=
   let ⟨c, h1, _, h3⟩ := div_ok lt a b ha hb
   ⟨c, h1, h3⟩
+
+/-! ## 5. every expression BUILT THROUGH THE PUBLIC DSL is in the domain of the theorems
+
+A construction is a syntax tree over the public builders and operators (`P`, `PP`, `Sum`, `Q`, `One`, `Zero`, names,
+`+ - ~ @ | & * /`, calls, subscripts, tuples); `PyEval.evalExpr lt a` is the object the DSL builds from it.
+`namesOnce a` is the property's own restriction "each distribution mentioning a variable name at most once" as a
+decidable predicate ON THE TREE (no evaluation): every argument list of a call, every `a | b`, `a & b`, every tuple,
+every `@`-argument and every `[…]` subscript (`P[…]`, `Sum[…]`, `Q[…]`) writes a name at most once, and tuples are
+non-empty (so Q factors have a domain).  The harness decides `namesOnce` on every generated construction, with an
+independent Python implementation compared against this one. -/
+
+/-- **`built_of_eval`**: every expression object the interpreter produces from a `namesOnce` construction tree is
+`built` (hence well-formed): the composition of the closure theorems of section 4 along `PyEval.eval`'s dispatch -/
+theorem built_of_eval (lt : Expr → Expr → Bool) (hasym : Asymm lt) (a : Ast) (e : Expr)
+    (hn : PyEval.namesOnce a = true) (h : PyEval.evalExpr lt a = .ok e) : built lt e = true ∧ wf e = true :=
+  have hb := built_of_evalExpr lt hasym a e hn h
+  ⟨hb, wf_of_built lt e hb⟩
+
+/-- the invariant behind it, for EVERY value the interpreter produces at any node (variables, distributions, tuples,
+partially applied builders): variables canonical with pairwise distinct names that are written in the tree -/
+theorem eval_invariant (lt : Expr → Expr → Bool) (hasym : Asymm lt) (a : Ast) (v : PyEval.Val)
+    (hn : PyEval.namesOnce a = true) (h : PyEval.eval lt a = .ok v) : GoodV lt a v :=
+  goodv_eval lt hasym a v hn h
+
+/-- **the meaning clause over constructions**: whatever a `namesOnce` construction builds, parsing its printed form
+succeeds and yields an object with the same denotation -/
+theorem construction_parse_print_den (lt : Expr → Expr → Bool) (hasym : Asymm lt) (a : Ast) (e : Expr)
+    (hn : PyEval.namesOnce a = true) (h : PyEval.evalExpr lt a = .ok e) :
+    ∃ e', PyEval.parseY0 lt (Print.expr e) = .ok e' ∧
+      ∀ (env : Env) (σ' σ : Y0.Val), den env σ' e' σ = den env σ' e σ :=
+  parse_print_den lt e (built_of_eval lt hasym a e hn h).1
+
+/-- **printing is unambiguous over constructions** -/
+theorem construction_parse_print_ast (lt : Expr → Expr → Bool) (hasym : Asymm lt) (a : Ast) (e : Expr)
+    (hn : PyEval.namesOnce a = true) (h : PyEval.evalExpr lt a = .ok e) : parse (Print.expr e) = .ok (astOf e) :=
+  parse_print_ast e (built_of_eval lt hasym a e hn h).2
+
+/-- **the object-equality clause over constructions**: when the built object is in the simple-division family, the
+parser returns that object, which prints the same text -/
+theorem construction_parse_print_eq (lt : Expr → Expr → Bool) (hasym : Asymm lt) (a : Ast) (e : Expr)
+    (hn : PyEval.namesOnce a = true) (h : PyEval.evalExpr lt a = .ok e) (hs : simple e = true) :
+    PyEval.parseY0 lt (Print.expr e) = .ok e :=
+  parse_print_eq lt e (built_of_eval lt hasym a e hn h).1 hs
+
+/-! ### the instances for the order of the code under test (`Expr.ltE`, total key) and for the pinned order -/
+
+theorem built_of_eval_total (a : Ast) (e : Expr) (hn : PyEval.namesOnce a = true)
+    (h : PyEval.evalExpr Expr.ltE a = .ok e) : built Expr.ltE e = true ∧ wf e = true :=
+  built_of_eval Expr.ltE total_order_asymm a e hn h
+
+theorem built_of_eval_pinned (a : Ast) (e : Expr) (hn : PyEval.namesOnce a = true)
+    (h : PyEval.evalExpr PyEval.exprLt a = .ok e) : built PyEval.exprLt e = true ∧ wf e = true :=
+  built_of_eval PyEval.exprLt pinned_order_asymm a e hn h
+
+/-- the three clauses for the code under test, over constructions -/
+theorem construction_roundtrip_total (a : Ast) (e : Expr) (hn : PyEval.namesOnce a = true)
+    (h : PyEval.evalExpr Expr.ltE a = .ok e) :
+    parse (Print.expr e) = .ok (astOf e) ∧
+    (∃ e', PyEval.parseY0 Expr.ltE (Print.expr e) = .ok e' ∧
+      ∀ (env : Env) (σ' σ : Y0.Val), den env σ' e' σ = den env σ' e σ) ∧
+    (simple e = true → PyEval.parseY0 Expr.ltE (Print.expr e) = .ok e) :=
+  ⟨construction_parse_print_ast _ total_order_asymm a e hn h, construction_parse_print_den _ total_order_asymm a e hn h,
+   construction_parse_print_eq _ total_order_asymm a e hn h⟩
+
+theorem built_closed_mul_total (a b c : Expr) (ha : built Expr.ltE a = true) (hb : built Expr.ltE b = true)
+    (hc : PyEval.mul Expr.ltE a b = .ok c) : built Expr.ltE c = true :=
+  built_closed_mul Expr.ltE total_order_asymm a b c ha hb hc
+
+theorem built_closed_div_total (a b c : Expr) (ha : built Expr.ltE a = true) (hb : built Expr.ltE b = true)
+    (hc : PyEval.div Expr.ltE a b = .ok c) : built Expr.ltE c = true :=
+  built_closed_div Expr.ltE total_order_asymm a b c ha hb hc
+
+theorem parse_print_eq_total (e : Expr) (hb : built Expr.ltE e = true) (hs : simple e = true) :
+    PyEval.parseY0 Expr.ltE (Print.expr e) = .ok e := parse_print_eq Expr.ltE e hb hs
+
+theorem parse_print_den_total (e : Expr) (hb : built Expr.ltE e = true) :
+    ∃ e', PyEval.parseY0 Expr.ltE (Print.expr e) = .ok e' ∧
+      ∀ (env : Env) (σ' σ : Y0.Val), den env σ' e' σ = den env σ' e σ := parse_print_den Expr.ltE e hb
+
+theorem parse_print_same_text_total (e e' : Expr) (hb : built Expr.ltE e = true) (hs : simple e = true)
+    (hp : PyEval.parseY0 Expr.ltE (Print.expr e) = .ok e') : Print.expr e' = Print.expr e :=
+  parse_print_same_text Expr.ltE e e' hb hs hp
+
+theorem parse_print_never_fails_total (e : Expr) (hb : built Expr.ltE e = true) :
+    ∃ e', PyEval.parseY0 Expr.ltE (Print.expr e) = .ok e' := parse_print_total Expr.ltE e hb
+
+theorem mul_total_den_total (a b : Expr) (ha : nz a = true) (hb : nz b = true) :
+    ∃ c, PyEval.mul Expr.ltE a b = .ok c ∧
+      ∀ (env : Env) (σ' σ : Y0.Val), den env σ' c σ = den env σ' a σ * den env σ' b σ := mul_total_den Expr.ltE a b ha hb
+
+theorem div_total_den_total (a b : Expr) (ha : nz a = true) (hb : nz b = true) :
+    ∃ c, PyEval.div Expr.ltE a b = .ok c ∧
+      ∀ (env : Env) (σ' σ : Y0.Val), den env σ' c σ = den env σ' a σ / den env σ' b σ := div_total_den Expr.ltE a b ha hb
+
+/-- the object-equality clause over constructions, with the text: what the code under test builds from a `namesOnce`
+construction in the simple-division family is returned by the parser and prints the same text -/
+theorem construction_same_text_total (a : Ast) (e e' : Expr) (hn : PyEval.namesOnce a = true)
+    (h : PyEval.evalExpr Expr.ltE a = .ok e) (hs : simple e = true)
+    (hp : PyEval.parseY0 Expr.ltE (Print.expr e) = .ok e') : e' = e ∧ Print.expr e' = Print.expr e := by
+  have hb := (built_of_eval_total a e hn h).1
+  rw [parse_print_eq_total e hb hs] at hp
+  cases hp
+  exact ⟨rfl, rfl⟩
+
+/-! ### reconciliation with the `expr` family's model of the constructors (Y0.Model.Dsl, C10/C11/C13)
+
+`PyEval` is self-contained and parametric in the order; instantiated at `Expr.ltE` its `Product.safe` IS the one of
+Y0.Model.Dsl (both sort with the same stable insertion sort), so "the order of the code under test" above is the order
+C11's `key_total` speaks about. -/
+
+theorem sortBy_eq_sortStable {α} (lt : α → α → Bool) (l : List α) : sortBy lt l = sortStable lt l := by
+  have hins : ∀ (x : α) (l : List α), insertBy lt x l = insertStable lt x l := by
+    intro x l
+    induction l with
+    | nil => rfl
+    | cons y ys ih => simp [insertBy, insertStable, ih]
+  induction l with
+  | nil => rfl
+  | cons x xs ih =>
+    show insertBy lt x (sortBy lt xs) = insertStable lt x (sortStable lt xs)
+    rw [ih, hins]
+
+theorem productSafe_agrees (es : List Expr) : PyEval.productSafe Expr.ltE es = Y0.productSafe es := by
+  have h1 : (fun e => !PyEval.isOne e) = (fun e : Expr => !e.isOne) := by
+    funext e; cases e <;> rfl
+  have h2 : PyEval.isZero = Expr.isZero := by
+    funext e; cases e <;> rfl
+  unfold PyEval.productSafe Y0.productSafe
+  simp only [h1, h2]
+  cases List.filter (fun e => !e.isOne) es with
+  | nil => rfl
+  | cons a r =>
+    cases r with
+    | nil => rfl
+    | cons b r' => simp only [sortBy_eq_sortStable]
+
+/-! non-vacuity of section 5: the front-door estimand written with the public DSL,
+`Sum[Z](P(Z | X) * Sum[X](P(Y | (X, Z)) * P(X)))`, a counterfactual query `P[X](Y @ +Z | W) / Q[A, B](C)` and a
+construction outside `namesOnce` (`P(A, A)`) -/
+
+def frontdoorTree : Ast :=
+  .call (.sub (.kw .Sum) (.name 3))
+    [.bin .mul (.call (.kw .P) [.bin .bor (.name 3) (.name 1)])
+      (.call (.sub (.kw .Sum) (.name 1))
+        [.bin .mul (.call (.kw .P) [.bin .bor (.name 2) (.tuple [.name 1, .name 3])]) (.call (.kw .P) [.name 1])])]
+
+def cfTree : Ast :=
+  .bin .div (.call (.sub (.kw .P) (.name 1)) [.bin .bor (.bin .matmul (.name 2) (.un .pos (.name 3))) (.name 4)])
+    (.call (.sub (.kw .Q) (.tuple [.name 5, .name 6])) [.name 7])
+
+example : PyEval.namesOnce frontdoorTree = true := by decide
+example : PyEval.namesOnce cfTree = true := by decide
+example : PyEval.namesOnce (.call (.kw .P) [.name 1, .name 1]) = false := by decide
+example : ∃ e, PyEval.evalExpr Expr.ltE frontdoorTree = .ok e ∧ built Expr.ltE e = true ∧ simple e = true := by
+  refine ⟨_, rfl, ?_, ?_⟩ <;> decide
+example : ∃ e, PyEval.evalExpr Expr.ltE cfTree = .ok e ∧ built Expr.ltE e = true := ⟨_, rfl, by decide⟩
+example : ∃ e, PyEval.evalExpr PyEval.exprLt frontdoorTree = .ok e ∧ built PyEval.exprLt e = true := ⟨_, rfl, by decide⟩
 
 /-! non-vacuity: a well-formed expression with a product denominator, a fraction factor, a level-2 probability and a
 counterfactual variable; its printed form and its tree -/
@@ -209,6 +366,9 @@ example : simple sample3 = false := by decide
 example : ∃ e', PyEval.parseY0 PyEval.exprLt (Print.expr sample3) = .ok e' := parse_print_total _ sample3 (by decide)
 
 example : built PyEval.exprLt sample2 = true := by decide
+example : built Expr.ltE sample2 = true := by decide
+example : built Expr.ltE sample3 = true := by decide
+example : PyEval.parseY0 Expr.ltE (Print.expr sample2) = .ok sample2 := parse_print_eq_total sample2 (by decide) (by decide)
 example : simple sample2 = true := by decide
 example : PyEval.parseY0 PyEval.exprLt (Print.expr sample2) = .ok sample2 :=
   parse_print_eq _ sample2 (by decide) (by decide)
